@@ -82,7 +82,7 @@ var profiles = map[string]*Profile{
 		W:         map[string]int{"xfer": 6, "ktx": 6, "mine": 5, "foreign": 5, "fork": 5, "walk": 3, "sync": 3, "xfer-bad": 1, "truncate": 2, "badblock": 1, "bad-truncate": 2},
 		EndChecks: []string{"crashcheck 120"}},
 	"C12": {Name: "schedules", Steps: 30, Fee: []bool{false, true}, Windows: []int64{0},
-		W:         map[string]int{"xfer": 4, "ktx": 4, "race": 10, "balrace": 6, "selrace": 4, "walkrace": 5, "xfer-bad": 3, "ktx-two": 3, "ktx-old": 2, "mine": 3, "foreign": 3, "fork": 2, "walk": 2, "sync": 2},
+		W:         map[string]int{"xfer": 4, "ktx": 4, "race": 10, "balrace": 6, "selrace": 4, "walkrace": 4, "xfer-bad": 3, "ktx-two": 3, "ktx-old": 2, "mine": 3, "foreign": 3, "fork": 2, "walk": 2, "sync": 2},
 		EndChecks: []string{"sync", "obs"}},
 	"C17": {Name: "finality", Steps: 34, Fee: []bool{false}, Windows: []int64{1, 2, 3, 0},
 		W:         map[string]int{"xfer": 2, "ktx": 2, "mine": 6, "foreign": 5, "fork": 7, "walk": 6, "sync": 3, "reopen": 2, "badblock": 2, "truncate": 2, "walkrace": 4},
